@@ -38,8 +38,9 @@ Print Assumptions C07_measure_decreases.
 (* ---- the result ---- *)
 (* Whatever Connect returns is allowed by the history of that connection: nil only if the
    application asked (Close(), or a QUIT handed to Send/Quit); ErrEvent t only for an ERROR t
-   this connection's peer sent; an I/O error only if the peer closed; a parse error only for
-   an unparsable line; a ping timeout only if the ticker said so. *)
+   this connection's peer sent; an I/O error only if the peer closed or the write of a line
+   other than the QUIT failed (a failed write of the QUIT itself is ignored); a parse error
+   only for an unparsable line; a ping timeout only if the ticker said so. *)
 Theorem C07_result : forall b tr s r,
   exec b tr s -> cpc s = CRet r ->
   let f := feat_of tr in
@@ -47,15 +48,18 @@ Theorem C07_result : forall b tr s r,
   (exists t, r = EErrEvent t /\ In t (f_errors f)) \/
   (r = EIO /\ f_peer_closed f = true) \/
   (r = EParse /\ f_bad f = true) \/
-  (r = ETimedOut /\ f_tick f = true).
+  (r = ETimedOut /\ f_tick f = true) \/
+  (r = EIO /\ f_wfail f = true).
 Proof. exact result_cases. Qed.
 Print Assumptions C07_result.
 
-(* nil after Close/Quit, when nothing else happened *)
+(* nil after Close/Quit, when nothing else happened - in particular also when the socket's
+   sending direction broke and the write of the QUIT line itself failed (LWFault may occur in
+   tr; f_wfail records only failed writes of other lines) *)
 Theorem C07_result_nil : forall b tr s r,
   exec b tr s -> cpc s = CRet r ->
   f_errors (feat_of tr) = [] -> f_peer_closed (feat_of tr) = false ->
-  f_bad (feat_of tr) = false -> f_tick (feat_of tr) = false -> r = ENil.
+  f_bad (feat_of tr) = false -> f_tick (feat_of tr) = false -> f_wfail (feat_of tr) = false -> r = ENil.
 Proof. exact result_nil. Qed.
 Print Assumptions C07_result_nil.
 
@@ -64,7 +68,7 @@ Print Assumptions C07_result_nil.
 Theorem C07_result_error : forall b tr s r t,
   exec b tr s -> cpc s = CRet r ->
   f_close (feat_of tr) = false -> f_errors (feat_of tr) = [t] -> f_peer_closed (feat_of tr) = false ->
-  f_bad (feat_of tr) = false -> f_tick (feat_of tr) = false -> r = EErrEvent t.
+  f_bad (feat_of tr) = false -> f_tick (feat_of tr) = false -> f_wfail (feat_of tr) = false -> r = EErrEvent t.
 Proof. exact result_error. Qed.
 Print Assumptions C07_result_error.
 
